@@ -322,7 +322,15 @@ func (p *balloons) ReleaseResources(c cache.Container) error {
 			}
 		}
 	} else {
-		log.Debug("ReleaseResources: balloon-less container %s, nothing to release", c.PrettyName())
+		// A container can be left without a balloon by a configuration
+		// update (all balloons are rebuilt) while its memory is still
+		// accounted for. Release it here, nobody else will.
+		if _, ok := p.memAllocator.AssignedZone(c.GetID()); ok {
+			if err := p.memAllocator.Release(c.GetID()); err != nil {
+				log.Error("ReleaseResources: failed to release memory for %s: %v", c.PrettyName(), err)
+			}
+		}
+		log.Debug("ReleaseResources: balloon-less container %s, nothing else to release", c.PrettyName())
 	}
 	return nil
 }
